@@ -2065,10 +2065,13 @@ def _sbm_post(S):
         model, spec, kind, d = sim['model'], sim['spec'], sim['kind'], sim['dir']
         comp = list(model.particle.composition)
         tc = r.choice([None, comp[:1]])
-        S.attempt(M + 'get_derived_variables', kind, dict(spec, track_chems=tc), lambda: model.get_derived_variables(track_chems=tc))
+        # a bubble that dissolves completely ends with rows of zero mass (calculate_path clips the overshoot to 0): own input kind
+        gone = bool(np.any(np.sum(model.y[:, 3:-1], axis=1) <= 0.))
+        dk = 'dissolved-particle' if gone else kind
+        S.attempt(M + 'get_derived_variables', dk, dict(spec, track_chems=tc), lambda: model.get_derived_variables(track_chems=tc), edge=gone)
         f_nc, f_txt, f_der = os.path.join(d, 'sbm.nc'), os.path.join(d, 'sbm_state'), os.path.join(d, 'sbm_derived.txt')
         S.attempt(M + 'save_txt', kind, spec, lambda: (model.save_txt(f_txt, 'profile.nc', 'C20 synthetic profile'), np.loadtxt(f_txt + '.txt'))[1])
-        S.attempt(M + 'save_derived_variables', kind, dict(spec, track_chems=tc), lambda: model.save_derived_variables(f_der, track_chems=tc))
+        S.attempt(M + 'save_derived_variables', dk, dict(spec, track_chems=tc), lambda: model.save_derived_variables(f_der, track_chems=tc), edge=gone)
         if S.attempt(M + 'save_sim', kind, spec, lambda: model.save_sim(f_nc, 'profile.nc', 'C20 synthetic profile')) is FAILED:
             continue
         m2 = sbm.Model(sim['prf'])
@@ -2079,7 +2082,7 @@ def _sbm_post(S):
         S.attempt(M + 'load_sim', kind, spec, load)
         m3 = S.attempt('single_bubble_model.Model', 'simfile', spec, lambda: sbm.Model(simfile=f_nc))
         if m3 is not FAILED:
-            S.attempt(M + 'get_derived_variables', kind + ':loaded', spec, lambda: m3.get_derived_variables())
+            S.attempt(M + 'get_derived_variables', dk if gone else kind + ':loaded', spec, lambda: m3.get_derived_variables(), edge=gone)
         # the particle list of the save file read back directly
         _load_particles_direct(S, f_nc, 'SingleParticle:model-file', spec)
 
